@@ -316,8 +316,30 @@ def r08_10(run, model):
     run.ob("R08.10", "transform_expr|let names registered", let_ins >= 1, site(LIFT, g.node["sp"]), f"{let_ins} scope.insert in the ELet arm")
 
 
+def r08_12(run, model):
+    run.rule("R08.12", "a caller sees its callee's converted signature whatever the order of the top-level functions: lambda_lift does not "
+                       "transform function bodies (which read callee signatures from the lift environment) in the same pass that rewrites "
+                       "those signatures - a function returning a closure gets the closure struct as result type only when it is itself "
+                       "processed, so a caller that precedes it keeps the plain function type")
+    f = model.fn("lambda_lift", LIFT)
+    n = 0
+    for loop in S.find(f.body, "For"):
+        reads = any(True for _ in S.calls(loop["body"], "transform_expr"))
+        writes = [c for c in S.walk(loop["body"]) if c["k"] == "MethodCall" and c["method"] == "insert_func"]
+        if not reads:
+            continue
+        n += 1
+        run.ob("R08.12", "lambda_lift|callee signatures are final before callers are lifted", not writes, site(LIFT, (writes or [loop])[0]["sp"]),
+               "the loop that transforms the bodies also rewrites the function signatures (insert_func)" if writes else "bodies are transformed in a pass of their own",
+               witness="fn main() { let f = adder(3); f(4) } placed before fn adder(k) -> (int32) -> int32 { |x| x + k }: main is lifted first and "
+                       "emits `var f func(int32) int32 = adder(3)` / `f(4)` although adder returns closure_env_adder_0")
+    if n == 0:
+        raise AnalysisIncomplete("lambda_lift: loop that transforms the function bodies not found")
+
+
 def run(run, model):
     run.try_rule(r08_10, model)
+    run.try_rule(r08_12, model)
     from rules import c19
     run.rule("R08.9", "captured variables get distinct environment fields (shared with C19 R19.6)")
     run.try_rule(c19.r19_6, model)
